@@ -428,8 +428,8 @@ def correspondence(ctx):
               (2, 29, 0, 2, 28, 23, 2, True), (12, 31, 0, 1, 1, 23, 4, True), (3, 1, 0, 2, 28, 23, 1, False),
               (6, 15, 0, 6, 15, 23, 60, False), (2, 28, 0, 3, 1, 23, 3, True), (1, 1, 0, 1, 1, 23, 1, False)]
     periods = list(corpus)
-    budget = ctx.n(400000, 6000000)
-    while budget > 0 and len(periods) < ctx.n(130, 2500):
+    budget = ctx.n(350000, 4000000)
+    while budget > 0 and len(periods) < ctx.n(110, 1500):
         t = _gen_fullday(rng, 40000 if rng.random() < 0.9 else 120000)
         periods.append(t)
         budget -= len(ref_moys(t))
@@ -468,8 +468,8 @@ def correspondence(ctx):
               ('mph', (1, 1, 0, 1, 1, 23, 2, False), False, [0, 30, 60, 90, 1440]),
               ('mph', (1, 1, 0, 1, 1, 23, 1, False), False, [0, 30]),
               ('day', (1, 1, 0, 12, 31, 23, 1, False), True, [527040 - 60])]
-    for _ in range(ctx.n(140, 2500)):
-        t, dleap, moys, tag = _gen_disc(rng, ctx.n(1500, 6000))
+    for _ in range(ctx.n(120, 1500)):
+        t, dleap, moys, tag = _gen_disc(rng, ctx.n(1500, 4000))
         ctx.count('disc:' + tag)
         ctx.count('disc:span:' + _classify(t))
         for by in ('day', 'month', 'mph'):
@@ -504,7 +504,7 @@ def correspondence(ctx):
             n = len(ref_moys(t))
             ocases.append({'coll': 'cont', 'iv': iv, 'stat': 'average', 'p': 0, 't': t, 'exact': True,
                            'vals': [float(i) for i in range(n)]})
-    for _ in range(ctx.n(150, 3000)):
+    for _ in range(ctx.n(140, 2000)):
         iv = rng.choice(['daily', 'monthly', 'monthlyperhour'])
         stat = rng.choice(['average', 'total', 'percentile', 'percentile'])
         p, pexact = _gen_p(rng) if stat == 'percentile' else (0, True)
@@ -575,7 +575,7 @@ def correspondence(ctx):
 
     # ---- plain statistics of a collection
     scases = []
-    for _ in range(ctx.n(1500, 40000)):
+    for _ in range(ctx.n(1200, 25000)):
         n = rng.choice([1, 1, 2, 3, 4, 5, 7, 8, 9, 16, 17, 24, 31, rng.randrange(1, 120)])
         kind, vals = _gen_values(rng, n)
         p, pexact = _gen_p(rng)
@@ -928,14 +928,19 @@ def oracle(ctx):
     run_oracle_cases(ctx, _oracle_cases(ctx), check_case)
 
 
-LEVEL_TEXT = ('Machine-checked Lean 4 theorems over an executable, value-polymorphic model of the grouping code: '
-              'the datetime-keyed groups partition the data (each value in exactly the group of its own '
-              'datetime, order kept, concatenation a permutation), the slice-based continuous grouping equals '
-              'the keyed grouping of the same data, every interval statistic is that statistic of its group in '
-              'listing order with empty groups skipped, and percentile/median/min/max/highest/lowest meet their '
-              'textbook definitions over exact rationals (see Props/C03.lean for the exact list and the '
-              '_partial items). The model is compared with the real classes on structure-directed inputs on '
-              'every run; an independent oracle regroups every value by its stdlib datetime.')
+LEVEL_TEXT = ('Machine-checked Lean 4 theorems (21) over an executable, value-polymorphic model of the grouping code: '
+              'the datetime-keyed groups (day, month; month-per-hour under a stated side condition) hold at each key '
+              'exactly the values whose own datetime has that key, in collection order, and their concatenation is a '
+              'permutation of the data (nothing lost, duplicated or borrowed); a datetime without key raises KeyError; '
+              'the slice arithmetic of the continuous group_by_day equals the keyed grouping for EVERY whole-day period '
+              '(annual, partial, year-wrapping; 12 timesteps; leap) - proved on top of the C04/C08 theorems; every value '
+              'of average_/total_/percentile_ daily|monthly|... is that statistic of its group in listing order with '
+              'empty groups skipped, and no day with data is skipped; percentile = textbook linear interpolation between '
+              'order statistics with p=0 -> min, p=100 -> max, p=50 -> median, min <= percentile <= max, monotone in p; '
+              'highest/lowest values = first count of the sort with distinct consistent indices; daily collections are '
+              'grouped by the calendar month of their day (all 365+366 days). Partial: continuous group_by_month = keyed '
+              '(kernel-checked on sample periods only; compared on every run). The model is compared with the real classes '
+              'on structure-directed inputs on every run; an independent oracle regroups every value by its stdlib datetime.')
 LEVEL_NOTE = ('Trusted: Lean kernel; axioms propext/Classical.choice/Quot.sound only; the correspondence run '
               '(agreement on generated inputs only); the AP and Cal models (C04, C08); Python sorted()/OrderedDict '
               'modelled by List.mergeSort / association lists; float arithmetic of the statistics not proved.')
